@@ -556,7 +556,7 @@ impl Check for TreeProp {
             scn.worlds.push(wb.world);
             scn.problems.push(ProblemSpec {
                 starts: vec![wb.start],
-                goal: GoalSpec { target: wb.target, radius: wb.goal_radius * rng.range(1.0, 2.5), sampler: GoalSampler::Harness, sampler_seed: rng.u64() % 1_000_000, comp: wb.goal_comp, harness_metric: scn.problems[0].goal.harness_metric },
+                goal: GoalSpec { target: wb.target, radius: wb.goal_radius * rng.range(1.0, 2.5), sampler: GoalSampler::Harness, sampler_seed: rng.u64() % 1_000_000, comp: wb.goal_comp, harness_metric: scn.problems[0].goal.harness_metric, cycle: vec![] },
                 world: 1,
                 space: own_space,
             });
